@@ -57,6 +57,28 @@ for i in range(1, 9):
         "< 2^BITS (arithmetic of C12, N/A)")
     break
 
+
+# ---- division / Montgomery kernels (C14, C11, C12): implicit sites are inventoried since D-lin (vcheck/linear.py)
+for k_ in ("assert:DivisionByZero", "assert:RemainderByZero"):
+    row("crate::algorithms::div::div", k_, k_.split(":")[1],
+        "numerator[0] / divisor[0] on the 1x1 path: `divisor` was re-sliced to `..=i` with i the position of its last "
+        "non-zero limb (rposition(|x| x != 0), the zero divisor having panicked with the documented message above), and "
+        "this path has divisor.len() == 1, so divisor[0] is that non-zero limb. Value-level fact about the closure's "
+        "predicate; reviewed, not machine-checked")
+row("crate::algorithms::div::reciprocal::reciprocal_ref", "assert:DivisionByZero", "DivisionByZero",
+    "reference implementation (called from tests and debug assertions only): documented precondition d >= 2^63 "
+    "(debug_assert), so the native division's divisor is non-zero")
+row("crate::algorithms::div::small::div_2x1_ref", "assert:DivisionByZero", "DivisionByZero",
+    "reference implementation (called from div_3x2_ref, tests and debug assertions only): documented precondition "
+    "d >= 2^63 (debug_assert), so the native division's divisor is non-zero")
+row("crate::algorithms::div::small::div_2x1_ref", "assert:RemainderByZero", "RemainderByZero",
+    "reference implementation: documented precondition d >= 2^63 (debug_assert)", optional=True)
+for fn_ in ("mul_redc", "square_redc"):
+    row("crate::modular::<impl %s>::%s" % (U, fn_), "call", "crate::Uint::<BITS, LIMBS>::from_limbs|diverge|assert!#Le(limbs[Sub(LIMBS,1)],MASK)",
+        "Self::from_limbs(result) after the Montgomery kernel: the kernel's result is < modulus (the value contract of "
+        "C11, not decided here) and the modulus is a canonical Uint, so the top limb is <= MASK. Reviewed, not "
+        "machine-checked: for aligned widths the assert is vacuous (MASK == u64::MAX, discharged by intervals)")
+
 # ---- bits.rs: indices that are in range by a relation the interval domain cannot express
 row("crate::bits::<impl %s>::most_significant_bits" % U, "assert:BoundsCheck", "BoundsCheck[first_set_limb]",
     "first_set_limb comes from rposition() over the LIMBS-long limb array, hence < LIMBS (core post-condition)")
